@@ -161,6 +161,40 @@ func (c04) Enumerate(tier string, seed int64, yield func(string, core.Case) bool
 			}
 		}
 	}
+	// PB constraints with coefficients of either sign (and zero)
+	var negs []MCon
+	for _, l := range litSets(3, 2, 3) {
+		for _, w := range weightVectors(len(l), -2, 2) {
+			hasNeg := false
+			for _, x := range w {
+				if x <= 0 {
+					hasNeg = true
+				}
+			}
+			if !hasNeg {
+				continue
+			}
+			for k := -2; k <= absSum(w); k++ {
+				negs = append(negs, MCon{L: l, C: w, K: k})
+			}
+		}
+	}
+	for _, a := range withWeights(negs, []int{0, 1, 2}) {
+		if !emitAPI("api1neg", []MCon{a}) {
+			return
+		}
+	}
+	cl2 := withWeights(mconAlphabet(3, 0), []int{0, 1})
+	for i, a := range withWeights(negs, []int{0, 2}) {
+		if !thorough && i%7 != 0 {
+			continue
+		}
+		for _, b := range cl2 {
+			if !emitAPI("api2neg", []MCon{a, b}) {
+				return
+			}
+		}
+	}
 	small := withWeights(mconAlphabet(2, 0), []int{0, 1, 2})
 	for _, a := range small {
 		for _, b := range small {
